@@ -1,13 +1,76 @@
-/- Driver for the ipvote engine (ops whose name starts with `v`). -/
+/- Driver for the ipvote engine (ops whose name starts with `v`).
+
+Ops (one reply line each):
+* `vnew MIN DUR_MS`      `IpVote::new` → `ok` | `err:panic` (minimum below 2)
+* `vins VOTER F:ADDR`    `IpVote::insert` (F = 4 | 6, ADDR an opaque token) → `ok`
+* `vsleep MS`            the clock advances → `ok`
+* `vmaj`                 `IpVote::majority` → `4=<ADDR|none> 6=<ADDR|none>`
+* `vhas`                 `IpVote::has_minimum_threshold` → `<bool> <bool>`
+* `vthr N`               sweep of the mirrored threshold over 0..=N → `thr N sum=Σthr(n) wsum=Σ(n+1)·thr(n) mod 2^61-1 mismatch=none`
+* `vthrcode N`           thresholds for n = 3..=N → `thrcode N t3,t4,…` (the harness derives them from
+                         the behaviour of `majority()` itself)
+The model iterates the maps in insertion order; `vmaj` also runs the reversed order and reports
+`model-order-dependent` if the two differ (cannot happen: `majority_order_independent`). -/
 import Driver.Common
+import Discv5Model.Model.IpVote
 namespace Discv5.Driver
+open Discv5.IpVote
 
 structure IpvoteSt where
-  dummy : Unit := ()
+  votes : Option (IpVote String) := none
+  clock : Nat := 0
+
+def vParseSock (s : String) : Option (Sock String) :=
+  match s.splitOn ":" with
+  | "4" :: rest => some (.v4 (":".intercalate rest))
+  | "6" :: rest => some (.v6 (":".intercalate rest))
+  | _ => none
+
+def vShowOpt : Option String → String
+  | none => "none"
+  | some a => a
+
+def vThrSweep (n : Nat) : Nat × Nat := Id.run do
+  let mut sum := 0
+  let mut wsum := 0
+  for i in [0:n+1] do
+    let t := thrF64 i
+    sum := sum + t
+    wsum := (wsum + (i + 1) * t) % 2305843009213693951
+  return (sum, wsum)
 
 /-- One op of the ipvote engine: full token list (op name first) → new state and reply line. -/
 def ipvoteStep (st : IpvoteSt) (toks : List String) : IpvoteSt × String :=
   match toks with
+  | ["vnew", m, d] =>
+    match IpVote.new? (nat! m) (nat! d) with
+    | none => ({ st with votes := none, clock := 0 }, "err:panic")
+    | some v => ({ votes := some v, clock := 0 }, "ok")
+  | ["vins", voter, sock] =>
+    match st.votes, vParseSock sock with
+    | some v, some s => ({ st with votes := some (v.insert st.clock (nat! voter) s) }, "ok")
+    | _, _ => (st, "bad-op")
+  | ["vsleep", ms] => ({ st with clock := st.clock + nat! ms }, "ok")
+  | ["vmaj"] =>
+    match st.votes with
+    | none => (st, "bad-op")
+    | some v =>
+      let r := v.majority thrF64 st.clock id id
+      let r' := v.majority thrF64 st.clock List.reverse List.reverse
+      if r.2 != r'.2 then ({ st with votes := some r.1 }, "model-order-dependent")
+      else ({ st with votes := some r.1 }, s!"4={vShowOpt r.2.1} 6={vShowOpt r.2.2}")
+  | ["vhas"] =>
+    match st.votes with
+    | none => (st, "bad-op")
+    | some v =>
+      let r := v.hasMinimumThreshold st.clock
+      ({ st with votes := some r.1 }, s!"{r.2.1} {r.2.2}")
+  | ["vthr", n] =>
+    let (s, w) := vThrSweep (nat! n)
+    (st, s!"thr {nat! n} sum={s} wsum={w} mismatch=none")
+  | ["vthrcode", n] =>
+    let ts := (List.range (nat! n + 1)).drop 3 |>.map (fun i => toString (thrF64 i))
+    (st, s!"thrcode {nat! n} {",".intercalate ts}")
   | _ => (st, "bad-op")
 
 end Discv5.Driver
